@@ -394,11 +394,12 @@ func parPri(rnd *rand.Rand, e *vh.Env, rounds, sample int) parStats {
 		done := make(chan struct{})
 		go func() { wg.Wait(); close(done) }()
 		atomic.StoreInt32(&start, 1)
-		tm := time.NewTimer(hangTimeout)
+		tm := time.NewTimer(hangTimeout())
 		select {
 		case <-done:
 			tm.Stop()
 		case <-tm.C:
+			noteHang()
 			st.hung++
 			e.Emit(vh.Case{Coq: "CParPri " + coqZ(int64(capn)) + " [(QPop, ROther 2%Z, 1%Z, 2%Z)]", Class: "parallel priq.PriQueue", Nontrivial: true,
 				Desc: map[string]interface{}{"queue": kindName["pri"], "generator": "parallel push/pop", "history": []string{"a round of parallel Push / Pop NEVER RETURNED"}}})
